@@ -4,6 +4,7 @@
 patch=$(realpath "$1"); prop=$2; tier=${3:-quick}
 wt=$(mktemp -d /tmp/vwt-XXXXXX); rmdir "$wt"
 git -C /repo worktree add -q --detach "$wt" HEAD || exit 3
-trap 'git -C /repo worktree remove --force "$wt" >/dev/null 2>&1; rm -rf /verif/build/alt_*' EXIT
+alt=/verif/build/alt_$(python3 -c "import hashlib,os,sys;print(hashlib.sha1(os.path.realpath(sys.argv[1]).encode()).hexdigest()[:8])" "$wt")
+trap 'git -C /repo worktree remove --force "$wt" >/dev/null 2>&1; rm -rf "$alt"' EXIT
 if ! git -C "$wt" apply "$patch"; then echo "patch does not apply"; exit 3; fi
 cd /verif && VERIF_REPO="$wt" ./vcheck "$prop" --tier "$tier"
